@@ -527,6 +527,21 @@ func fixKeys(t *T17) *T17 {
 	return t
 }
 
+// generalize replaces random sub-terms by variables of the (small, shared) pool.
+// Two generalisations of one skeleton with the same pool give pairs that nearly
+// unify and alias variables with each other: var~var bindings followed by
+// var~container-of-the-other-var, the shapes an occurs check exists for.
+func (g *gen17) generalize(t *T17, p float64) *T17 {
+	if t.K != "tuple" && len(g.vars) > 0 && g.r.chance(p) {
+		return &T17{K: "var", N: g.vars[g.r.intn(len(g.vars))]}
+	}
+	n := &T17{K: t.K, N: t.N, F: append([]string(nil), t.F...)}
+	for _, a := range t.A {
+		n.A = append(n.A, g.generalize(a, p))
+	}
+	return n
+}
+
 // instantiate: replace every variable by a ground type (consistent).
 func (g *gen17) instantiate(p *T17) *T17 {
 	inst := map[string]*T17{}
@@ -584,7 +599,42 @@ func genCase17(r *rng) *Case17 {
 	case 3, 4, 5, 6:
 		c.Mode = "unify"
 		c.X = g.top(d, true, r.chance(0.2))
-		switch r.intn(4) {
+		switch r.intn(7) {
+		case 4, 5, 6:
+			if len(g.vars) < 2 {
+				g.vars = []string{"a1", "b1"}
+			}
+			// a skeleton with repeated sub-terms, generalised twice
+			sk := g.top(d, false, false)
+			if r.chance(0.6) {
+				g.dupChild(sk)
+				if r.chance(0.5) {
+					// wrap one of two equal siblings: (P, P) -> (P, list[P])
+					var cands []*T17
+					var walk func(n *T17)
+					walk = func(n *T17) {
+						if (n.K == "tuple" || n.K == "obj" || n.K == "fun") && len(n.A) >= 2 {
+							cands = append(cands, n)
+						}
+						for _, a := range n.A {
+							walk(a)
+						}
+					}
+					walk(sk)
+					if len(cands) > 0 {
+						n := cands[r.intn(len(cands))]
+						i := r.intn(len(n.A))
+						wrap := []string{"list", "maybe"}[r.intn(2)]
+						n.A[i] = &T17{K: wrap, A: []*T17{n.A[(i+1)%len(n.A)].clone()}}
+					}
+				}
+			}
+			pg := []float64{0.15, 0.3, 0.5}[r.intn(3)]
+			c.X = g.generalize(sk, pg)
+			c.Y = g.generalize(sk, pg)
+			if r.chance(0.3) {
+				c.Y = permuteFields(c.Y, r)
+			}
 		case 0:
 			c.Y = g.top(d, true, r.chance(0.2))
 			if c.X.K == "tuple" && c.Y.K != "tuple" || c.X.K != "tuple" && c.Y.K == "tuple" {
@@ -737,6 +787,19 @@ func doUnify(x, y *types.Type) (o unifyOut) {
 				panic(r)
 			}
 			o = unifyOut{Panic: fmt.Sprint(r)}
+		}
+	}()
+	defer func() {
+		// A variable used as a map key that would have to be bound to a non-keyable
+		// type has no unifier inside the type language; yae signals this through the
+		// map constructor's assertion instead of a nil result. That is a failed
+		// unification (the laws constrain successes), not a fault of Unify.
+		if r := recover(); r != nil {
+			if msg := fmt.Sprint(r); strings.HasPrefix(msg, "invalid type of map's key") {
+				o = unifyOut{}
+				return
+			}
+			panic(r)
 		}
 	}()
 	m := map[string]*types.Type{}
@@ -1007,6 +1070,53 @@ func (c17) Candidates(rf *ReplayFile) []*ReplayFile {
 		n := clone()
 		n.Share = false
 		mk(n)
+	}
+	// the same structural simplification on both sides at once (keeps x and y related)
+	{
+		var paths [][]int
+		var walk func(a, b *T17, p []int)
+		walk = func(a, b *T17, p []int) {
+			if len(p) > 0 {
+				paths = append(paths, append([]int(nil), p...))
+			}
+			if a.K != b.K || len(a.A) != len(b.A) || a.K == "obj" {
+				return
+			}
+			for i := range a.A {
+				walk(a.A[i], b.A[i], append(p, i))
+			}
+		}
+		walk(c.X, c.Y, nil)
+		at := func(r *T17, p []int) (*T17, int) {
+			cur := r
+			for _, i := range p[:len(p)-1] {
+				cur = cur.A[i]
+			}
+			return cur, p[len(p)-1]
+		}
+		for _, p := range paths {
+			n := clone()
+			px, ix := at(n.X, p)
+			py, iy := at(n.Y, p)
+			if px.K == "map" && ix == 0 {
+				continue
+			}
+			if px.A[ix].composite() || py.A[iy].composite() {
+				if px.A[ix].canon() == py.A[iy].canon() {
+					px.A[ix], py.A[iy] = &T17{K: "num"}, &T17{K: "num"}
+					mk(n)
+				}
+			}
+			// drop the same member of a tuple on both sides
+			if px.K == "tuple" && py.K == "tuple" && len(px.A) > 1 && len(px.A) == len(py.A) {
+				n2 := clone()
+				qx, jx := at(n2.X, p)
+				qy, jy := at(n2.Y, p)
+				qx.A = append(qx.A[:jx], qx.A[jx+1:]...)
+				qy.A = append(qy.A[:jy], qy.A[jy+1:]...)
+				mk(n2)
+			}
+		}
 	}
 	// replace a sub-term by a primitive / hoist a child, on x and on y
 	for side := 0; side < 2; side++ {
